@@ -277,6 +277,13 @@ func genStructuredLine(rt *rapid.T) string {
 		parts = []string{tokenFrom(rt, vocabEnum), tokenFrom(rt, vocabEnum)}
 	case "enum:unknown":
 		parts = []string{tokenFrom(rt, vocabEnum)}
+	case "enum:transform":
+		// NAME CONFIG...: the built-in transformer with zero to three words of configuration
+		parts = []string{rapid.SampledFrom([]string{"regex", "regex", "regex", "nope"}).Draw(rt, "transformer")}
+		n := rapid.IntRange(0, 3).Draw(rt, "transform-config-words")
+		for i := 0; i < n; i++ {
+			parts = append(parts, tokenFrom(rt, []string{"Color(\\w+)", "Shade$1", "Color", "Shade", ".*", "^Color(.*)$", "$1", "("}))
+		}
 	case "update", "context":
 		parts = []string{tokenFrom(rt, []string{"source", "target", "ctx", "context"})}
 	default:
